@@ -461,7 +461,7 @@ func (cx *Ctx) checkErrDiscipline(r *Report, fns []*ssa.Function) int {
 				}
 				nonNil, tested := fx.errBranches(e)
 				bad := ""
-				if !discarded && !tested && fx.nilTestReturned(e) {
+				if !discarded && !tested && (fx.nilTestReturned(e) || fx.verdictFormedByHelper(e)) {
 					// `return probe(ctx) != nil`: the verdict is handed out as the function's boolean result
 					continue
 				}
